@@ -122,31 +122,33 @@ theorem mem_nil_reach {own : String} {s : State} (h : Reach own s) : s.mem = [] 
 
 /-! ## The Boolean core of the decision block -/
 
-def inputsB (matchDel matchDmn delDone dmnLive dmnForever marked blocked cons memEmpty otherChanging otherDelays : Bool) : In :=
+def inputsB (matchDel matchDmn delDone dmnLive dmnForever marked blocked cons memEmpty otherChanging otherDelays delReset : Bool) : In :=
   { spawning := true, spawnReq := matchDmn && !dmnForever, changing := matchDel || otherChanging,
     changeReq := matchDel, isBlocked := blocked, isOngoing := marked, deletedEvent := false,
     consistent := cons && memEmpty, spawnDelays := dmnLive && (marked || !matchDmn),
-    changeDelays := (matchDel && !delDone) || otherDelays }
+    changeDelays := (matchDel && !(delDone && !delReset)) || otherDelays }
 
 theorem inputs_eq (own : String) (s : State) (e : Env) :
     inputs own s e = inputsB s.matchDel s.matchDmn s.delDone s.dmnLive s.dmnForever s.marked
-      (decide (own ∈ s.fins)) e.consistent s.mem.isEmpty e.otherChanging e.otherDelays := rfl
+      (decide (own ∈ s.fins)) e.consistent s.mem.isEmpty e.otherChanging e.otherDelays e.delReset := rfl
 
 /-- Whenever the block queues a removal, nothing requires the finalizer on the object it saw
 (the daemon it may just have spawned included). -/
-theorem key_bool : ∀ (matchDel matchDmn delDone dmnLive dmnForever marked blocked cons memEmpty otherChanging otherDelays : Bool),
+theorem key_bool : ∀ (matchDel matchDmn delDone dmnLive dmnForever marked blocked cons memEmpty otherChanging otherDelays delReset : Bool),
     (dmnForever = true → dmnLive = false) →
-    ((decision (inputsB matchDel matchDmn delDone dmnLive dmnForever marked blocked cons memEmpty otherChanging otherDelays)).removeUnneeded
-      || (decision (inputsB matchDel matchDmn delDone dmnLive dmnForever marked blocked cons memEmpty otherChanging otherDelays)).release) = true →
-    ((matchDel && !delDone) || (matchDmn && (dmnLive || (!marked && matchDmn && !dmnForever)))) = false := by
+    ((decision (inputsB matchDel matchDmn delDone dmnLive dmnForever marked blocked cons memEmpty otherChanging otherDelays delReset)).removeUnneeded
+      || (decision (inputsB matchDel matchDmn delDone dmnLive dmnForever marked blocked cons memEmpty otherChanging otherDelays delReset)).release) = true →
+    ((matchDel && !(if (decision (inputsB matchDel matchDmn delDone dmnLive dmnForever marked blocked cons memEmpty otherChanging otherDelays delReset)).handlersRun
+                    then delDone && !delReset else delDone))
+      || (matchDmn && (dmnLive || (!marked && matchDmn && !dmnForever)))) = false := by
   decide
 
 theorem allow_mem_fns (d : Decision) : Fn.allow ∈ d.fns ↔ (d.removeUnneeded || d.release) = true := by
-  rcases d with ⟨a, r, l, h⟩
+  rcases d with ⟨a, r, l, h, dl⟩
   cases a <;> cases r <;> cases l <;> simp [Decision.fns]
 
 theorem block_mem_fns (d : Decision) : Fn.block ∈ d.fns ↔ d.add = true := by
-  rcases d with ⟨a, r, l, h⟩
+  rcases d with ⟨a, r, l, h, dl⟩
   cases a <;> cases r <;> cases l <;> simp [Decision.fns]
 
 /-! ## The guarded invariant -/
@@ -182,8 +184,9 @@ theorem invG_step {own : String} {s s' : State} {l : Label} (h : InvG s) (hg : G
         simp only [List.mem_append] at hal
         have hd : Fn.allow ∈ (decision (inputs own s e)).fns := hal.resolve_left h4
         rw [allow_mem_fns, inputs_eq] at hd
-        have := key_bool _ _ _ _ _ _ _ _ _ _ _ h3 hd
-        simpa [required] using this
+        have := key_bool _ _ _ _ _ _ _ _ _ _ _ _ h3 hd
+        simp only [required, inputs_eq]
+        exact this
     | mergePatch =>
       simp only [stepMerge] at hs
       split at hs
@@ -354,39 +357,40 @@ def afterCycle (own : String) (s : State) (e : Env) : State :=
   let fns := s.mem ++ (decision (inputs own s e)).fns
   let target := applyFns own fns s.fins
   let live := s.dmnLive || (!s.marked && s.matchDmn && !s.dmnForever)
-  if target = s.fins then { s with dmnLive := live, pending := none, mem := [] }
-  else { s with dmnLive := live, fins := target, rv := s.rv + 1, pending := none, mem := [],
+  let done := if (decision (inputs own s e)).handlersRun then s.delDone && !e.delReset else s.delDone
+  if target = s.fins then { s with dmnLive := live, delDone := done, pending := none, mem := [] }
+  else { s with dmnLive := live, delDone := done, fins := target, rv := s.rv + 1, pending := none, mem := [],
                 gone := s.marked && target.isEmpty }
 
 theorem cycle_run (own : String) (s : State) (e : Env) (hg : s.gone = false) (hp : s.pending = none) :
     run own s (cycleLabels e) = some (afterCycle own s e) := by
-  rcases e with ⟨c, m, oc, od⟩
+  rcases e with ⟨c, m, oc, od, dr⟩
   cases m <;>
     simp [cycleLabels, run, step, stepDecide, stepMerge, stepJson, hg, hp, afterCycle] <;>
     split <;> simp_all
 
 theorem release_bool : ∀ (matchDel matchDmn delDone dmnForever otherChanging : Bool),
     (matchDel = true → delDone = true) →
-    let d := decision (inputsB matchDel matchDmn delDone false dmnForever true true true true otherChanging false)
+    let d := decision (inputsB matchDel matchDmn delDone false dmnForever true true true true otherChanging false false)
     d.add = false ∧ (d.removeUnneeded || d.release) = true := by
   decide
 
-theorem add_bool : ∀ (matchDel matchDmn delDone dmnLive dmnForever cons memEmpty otherChanging otherDelays : Bool),
+theorem add_bool : ∀ (matchDel matchDmn delDone dmnLive dmnForever cons memEmpty otherChanging otherDelays delReset : Bool),
     (matchDel || (matchDmn && !dmnForever)) = true →
-    let d := decision (inputsB matchDel matchDmn delDone dmnLive dmnForever false false cons memEmpty otherChanging otherDelays)
+    let d := decision (inputsB matchDel matchDmn delDone dmnLive dmnForever false false cons memEmpty otherChanging otherDelays delReset)
     d.add = true ∧ d.removeUnneeded = false ∧ d.release = false := by
   decide
 
-theorem remove_bool : ∀ (matchDel matchDmn delDone dmnLive dmnForever marked cons memEmpty otherChanging otherDelays : Bool),
+theorem remove_bool : ∀ (matchDel matchDmn delDone dmnLive dmnForever marked cons memEmpty otherChanging otherDelays delReset : Bool),
     (matchDel || (matchDmn && !dmnForever)) = false →
-    let d := decision (inputsB matchDel matchDmn delDone dmnLive dmnForever marked true cons memEmpty otherChanging otherDelays)
+    let d := decision (inputsB matchDel matchDmn delDone dmnLive dmnForever marked true cons memEmpty otherChanging otherDelays delReset)
     d.add = false ∧ d.removeUnneeded = true := by
   decide
 
 /-- the fns of a decision without `add` and with a removal end in a removal -/
 theorem fns_snoc_allow (d : Decision) (ha : d.add = false) (hr : (d.removeUnneeded || d.release) = true) :
     ∃ pre, d.fns = pre ++ [Fn.allow] := by
-  rcases d with ⟨a, r, l, h⟩
+  rcases d with ⟨a, r, l, h, dl⟩
   simp only at ha; subst ha
   cases r <;> cases l
   · simp at hr
@@ -396,7 +400,7 @@ theorem fns_snoc_allow (d : Decision) (ha : d.add = false) (hr : (d.removeUnneed
 
 theorem fns_add_only (d : Decision) (ha : d.add = true) (hr : d.removeUnneeded = false) (hl : d.release = false) :
     d.fns = [Fn.block] := by
-  rcases d with ⟨a, r, l, h⟩
+  rcases d with ⟨a, r, l, h, dl⟩
   simp only at ha hr hl; subst ha hr hl
   rfl
 
